@@ -22,7 +22,7 @@ EXPLANATION = (
     "is appended only under size == 1. R3 slice-offset agreement: an argmin/argmax over a[k:] indexes full-length arrays only after + k on "
     "every path. R4 noise test: the second evaluation is at the same point with the no-record flag and the level is raised iff |y - y'| > "
     "tol_noise. R5 supplement index: a per-row log array describing the returned point must be indexed by a lookup of that point; the "
-    "last-filled index qualifies only right after a recording call for that point. R6 the final re-sampling is guarded by the noisy mode and noise_final_samples > 0 only. Numeric values and the quantile choice are not decided."
+    "last-filled index qualifies only right after a recording call for that point. R6 the final re-sampling is guarded by the noisy mode and noise_final_samples > 0 only. R7 the observation appended when one final sample is taken belongs to the returned point (store-group coherence). R8 the SD an evaluation returns is the target's own. R9 branches of the optimizer that decide the noise mode read the run-time level OS[uncertainty_handling_level], never the logger's construction-time flag (an auto-detected stochastic target raises only the former). Numeric values and the quantile choice are not decided."
 )
 
 
